@@ -36,7 +36,8 @@
          compares integer values with the bound's Unix seconds, with an inclusive one panics)
      37  numeric strictness, clauses 14 and 15: a condition with an integer operand on key k
          while some indexed block has under k a value v that is not the canonical decimal of an
-         int64 >= 0, unless v has no digit and no dot and is the only value of k in that block
+         int64 >= 0, unless no value of k in that block has a digit or a dot (then the matcher
+         errors and the indexer parses nothing: both find nothing)
      38  EXISTS on a key without '.', clause 15 only *)
 From Coq Require Import String Ascii List ZArith NArith Bool.
 From TM Require Import Common.Hex C19.Query C19.SearchModel C19.ExecSearch.
@@ -95,7 +96,7 @@ Definition bvals (k : string) (b : block) : list string := vals_of k (blk_attrs 
 
 Definition bnum_bad (k : string) (b : block) : bool :=
   let vs := bvals k b in
-  existsb (fun v => negb (canonical v) && negb (digit_free v && Nat.eqb (List.length vs) 1)) vs.
+  existsb (fun v => negb (canonical v) && negb (forallb digit_free vs)) vs.
 
 Definition bin25 (bs : list block) (q : query) : bool :=
   existsb (fun c =>
